@@ -198,4 +198,13 @@ theorem C16_reencode_partial (o : Opts) (hc : CachesConsistent o) (hd : DecSideO
   · simp at h
   · simp at h
 
+/-- non-vacuity of `C16_reencode_partial`: the 26-byte encoding of `P{"hi", []int16{1,-1}, any([]string(nil))}` decodes,
+    the decoded value satisfies the hypotheses, hence re-encodes and decodes again -/
+example : ∃ bs', encode o0 pTy pVal = some bs' ∧ decodeRaw o0 5 bs' = .ok (some (pTy, pVal), []) :=
+  C16_reencode_partial o0 o0_consistent o0_decside 5
+    [131, 0, 4, 0x23, 0x6d, 0x2f, 0x50, 0, 2, 0x68, 0x69, 157, 0, 0, 0, 2, 0, 1, 0xff, 0xff, 130, 0, 2, 157, 141, 255]
+    pTy pVal [] (by decide) (by decide)
+    (by simp [DescOK, pTy, RegOK, o0, pName, zsName]) (by decide)
+    (by simp [pTy, pVal, Good, Goodf, Goods, LeafGood, DescOK, numCanon, lim32, Vals.length, Ty.nz, encTy])
+
 end ErgoVerif.Props.C16
